@@ -38,7 +38,7 @@ Op(o, v, ok, val, p) ==
 DoAllocate    == LET r == Allocate(pool)    IN Op("allocate", 0, r.ok, r.val, r.pool)
 DoFirstVacant == LET r == FirstVacant(pool) IN Op("first_vacant", 0, r.ok, r.val, pool)
 DoUseValue    == \E v \in Probe : LET r == UseValue(pool, v) IN Op("use_value", v, r.ok, 0, r.pool)
-DoDeallocate  == \E v \in Used  : Op("deallocate", v, TRUE, 0, Deallocate(pool, v))
+DoDeallocate  == \E v \in lo..hi : Op("deallocate", v, TRUE, 0, Deallocate(pool, v))    \* used values and free ones
 DoIsUsed      == \E v \in Probe : Op("is_used", v, IsUsed(pool, lo, hi, v), 0, pool)
 DoClear       == Op("clear", 0, TRUE, 0, Clear(lo, hi))
 
